@@ -467,9 +467,14 @@ def run(ctx):
             f.write("\n".join(lines) + "\nend\n")
         ops = unit_lines(ctx, impl, mfile, rng, variant, 2400 if thorough else 500)
         nunit += len(ops)
-        ctx.differential("real consumers vs Lean interpreter on %s" % name, [drv], [impl, "--model", mfile], ops,
-                         keyf=lambda l: None if l.split()[0] in ("frob", "facts", "groups") or l == "efc 10 0 0" else l)
         rc, outs, err = ctx.run_lines([impl, "--model", mfile], ops)
+        # the harness output is computed once; the correspondence compares exactly these lines with the model's
+        ofile = mfile + ".out"
+        with open(ofile, "w") as f:
+            f.write("".join(o + "\n" for o in outs))
+        ctx.differential("real consumers vs Lean interpreter on %s" % name, [drv], ["cat", ofile] if rc == 0 else [impl, "--model", mfile], ops,
+                         keyf=lambda l: None if l.split()[0] in ("frob", "facts", "groups") or l == "efc 10 0 0" else l)
+        os.remove(ofile)
         if rc != 0 or len(outs) != len(ops):
             ctx.oracle_failure("c20:harness-crash", "unit harness died (rc=%s)" % rc, {"model": name, "stderr": err[-400:]})
         else:
